@@ -21,6 +21,10 @@ CHECKS = {
   "Seeded histories in which dated what-if simulations (1-3 changes: numeric, categorical, hourly, link, list and mixtures; dates at the first, interior and last hour, before/after/far outside the period, naive) are created at random points of an edit history, with invalid values (refused by validation) and state-derived failing values (recomputation raising midway at every raising update function) injected into the change list, followed by random set/reset toggle strings. Oracle: an identity snapshot of the whole baseline (same value objects for every input and calculated value, same link targets, same dependency edges as id sets with no non-current reference, labels, sources) is unchanged after the constructor returns or raises and after every toggle string ending in the off state; the first accepted edit after a simulation is compared with a rebuilt reference.",
   "Book-keeping attributes (previous_*, all_changes, simulation, twins, contextual containers) are excluded from 'unchanged'; edge lists compared as sets of node ids; the degenerate empty-device-list fault is excluded.",
   "deterministic simulation: seeded histories with what-if simulations, validation and recomputation faults, toggle sequences; identity snapshot oracle"),
+"C13": ("exploration", "3.C13",
+  "Restart fault inside seeded edit histories: at random points (several per run) the live model is saved with system_to_json (with or without calculated attributes), serialised to text, every live object is dropped and the text is loaded back with json_to_system - optionally rewritten to the previous major layout first; the history then continues on the reloaded objects. Oracle right after reload: same objects, classes, ids, links, labels, sources and input values (hourly inputs are multiples of 1/8, so the documented 3-decimal rounding is lossless), all calculated values equal to a system rebuilt from the inputs, re-export equal to the first export; afterwards every accepted edit on the reloaded system is compared with a rebuilt reference (the loaded system is live).",
+  "Attribution: a restart is judged only if the world being saved agrees with the reference; re-export equality is checked on the input part (save_calculated_attributes=False); the v9 rewrite covers the one documented upgrade handler (Hardware -> Device).",
+  "deterministic simulation: restart (save / drop / reload) faults inside seeded histories; rebuilt reference"),
 "C14": ("fault_enumeration", "3.C14",
   "Fault enumeration: for every (class, constructor parameter) pair of the public class list, every invalid-value kind of the catalogue (wrong dimension, negative, wrong types, wrong-class list members, values outside allowed / conditional lists, key changes invalidating a dependent value) is injected at construction, as a single assignment, inside grouped updates (both orders) and through the list mutators on a computed model holding all 18 classes; the call must raise and an identity snapshot of the whole model (same value objects, same links, same dependency edges) must be unchanged. Further runs place catalogue faults at random points of seeded edit histories and compare the next accepted edit with a rebuilt reference.",
   "Catalogue kinds are those named by the statement; None for a required quantity, hourly series of another length/dimension and wrong-class scalar links are injected with the weaker oracle 'if refused, nothing changed'. Book-keeping attributes (previous_*, all_changes, contextual containers) are excluded from 'unchanged'.",
